@@ -135,6 +135,17 @@ func (cs *aClientState) run() {
 		simrt.Sleep("a.client.tail", ms(cs.spec.TailMs))
 	}
 	if cs.cur != nil && !cs.cur.broken {
+		if cs.spec.Abortive {
+			// everything written has to be read by the agent first, otherwise the reset legitimately destroys it
+			for i := 0; cs.cur.conn.Peer().Buffered() > 0 && !cs.cur.conn.PeerClosed() && i < 5000; i++ {
+				simrt.Sleep("a.client.drainwait", time.Millisecond)
+			}
+			if cs.cur.conn.Peer().Buffered() == 0 && !cs.cur.conn.PeerClosed() {
+				cs.cur.conn.Reset()
+				r.out.fault("client_reset_after_its_last_bytes", 1)
+				return
+			}
+		}
 		_ = cs.cur.conn.Close()
 	}
 }
